@@ -3,6 +3,7 @@
 #include "../../../common/debug_messages.h"
 #include "../core/interpreter.h"
 #include "../evaluator/core/evaluator.h"
+#include "../managers/types/enums.h"
 #include "../services/debug_service.h"
 #include <iostream>
 
@@ -414,10 +415,33 @@ void ControlFlowExecutor::execute_match_statement(const ASTNode *node) {
                             interpreter_->assign_variable(
                                 binding_name, enum_value.associated_str_value);
                         } else {
-                            // 数値型の場合
+                            // 数値型の場合: the integer type declared for the
+                            // variant's payload is the type of the binding
+                            // (the stored value cannot tell int from long).
+                            TypeInfo payload_type = TYPE_UNKNOWN;
+                            const EnumDefinition *enum_def =
+                                interpreter_->get_enum_manager()
+                                    ->get_enum_definition(
+                                        enum_value.enum_type_name);
+                            if (enum_def) {
+                                const EnumMember *member =
+                                    enum_def->find_member(
+                                        enum_value.enum_variant);
+                                if (member && member->has_associated_value) {
+                                    payload_type = member->associated_type;
+                                }
+                            }
+                            bool is_integer_payload =
+                                payload_type == TYPE_TINY ||
+                                payload_type == TYPE_SHORT ||
+                                payload_type == TYPE_INT ||
+                                payload_type == TYPE_LONG ||
+                                payload_type == TYPE_CHAR ||
+                                payload_type == TYPE_BOOL;
+
                             interpreter_->assign_variable(
                                 binding_name, enum_value.associated_int_value,
-                                TYPE_INT);
+                                is_integer_payload ? payload_type : TYPE_INT);
                         }
                     }
                 }
